@@ -95,6 +95,11 @@ pub enum Fault {
     Append(Vec<u8>),
     /// First `k` bytes from the other version, the rest from this one.
     Torn(usize),
+    /// Line-granular block faults (text artefacts): a block of whole lines written twice, lost, or
+    /// landing in the wrong place.
+    DupLines(usize, usize),
+    DelLines(usize, usize),
+    MoveLines(usize, usize, usize),
 }
 
 impl Fault {
@@ -109,6 +114,9 @@ impl Fault {
             Fault::SwapBlocks(_, _, _) => "swapped-blocks",
             Fault::Append(_) => "appended-garbage",
             Fault::Torn(_) => "torn-write",
+            Fault::DupLines(_, _) => "duplicated-lines",
+            Fault::DelLines(_, _) => "deleted-lines",
+            Fault::MoveLines(_, _, _) => "moved-lines",
         }
     }
 }
@@ -169,6 +177,34 @@ pub fn apply_fault(bytes: &[u8], alt: Option<&[u8]>, f: &Fault) -> Vec<u8> {
             }
         }
         Fault::Append(g) => v.extend(g),
+        Fault::DupLines(a, l) | Fault::DelLines(a, l) | Fault::MoveLines(a, l, _) => {
+            // split keeping the terminators
+            let mut lines: Vec<&[u8]> = bytes.split_inclusive(|b| *b == b'\n').collect();
+            if !lines.is_empty() {
+                let a = a % lines.len();
+                let e = (a + (*l).max(1)).min(lines.len());
+                match f {
+                    Fault::DupLines(_, _) => {
+                        let block: Vec<&[u8]> = lines[a..e].to_vec();
+                        for (i, b) in block.into_iter().enumerate() {
+                            lines.insert(e + i, b);
+                        }
+                    }
+                    Fault::DelLines(_, _) => {
+                        lines.drain(a..e);
+                    }
+                    Fault::MoveLines(_, _, to) => {
+                        let block: Vec<&[u8]> = lines.drain(a..e).collect();
+                        let to = if lines.is_empty() { 0 } else { to % (lines.len() + 1) };
+                        for (i, b) in block.into_iter().enumerate() {
+                            lines.insert(to + i, b);
+                        }
+                    }
+                    _ => {}
+                }
+                v = lines.concat();
+            }
+        }
         Fault::Torn(k) => {
             if let Some(alt) = alt {
                 let k = (*k).min(alt.len());
@@ -666,6 +702,16 @@ fn gen_fault(rng: &mut Rng, a: &Artefact) -> Fault {
         }
         rng.usize_below(n)
     };
+    if a.kind.is_text() && rng.chance(1, 4) {
+        let lines = a.bytes.iter().filter(|b| **b == b'\n').count().max(1);
+        let at = rng.usize_below(lines);
+        let len = 1 + rng.usize_below(3);
+        return match rng.below(3) {
+            0 => Fault::DupLines(at, len),
+            1 => Fault::DelLines(at, len),
+            _ => Fault::MoveLines(at, len, rng.usize_below(lines)),
+        };
+    }
     match rng.below(if a.alt.is_some() { 12 } else { 11 }) {
         0 | 1 => Fault::Truncate(pos(rng)),
         2..=4 => {
